@@ -698,6 +698,15 @@ type PropertyExpressionVisitor struct {
 	BaseVisitor
 
 	PropertyLookup *cypher.PropertyLookup
+	numLookups     int
+}
+
+func (s *PropertyExpressionVisitor) EnterOC_PropertyLookup(ctx *parser.OC_PropertyLookupContext) {
+	// SET and REMOVE address one property of the atom. The model has no place for a chained lookup (n.a.b): every
+	// further key would replace the previous one.
+	if s.numLookups++; s.numLookups > 1 {
+		s.newUnsupportedRuleError(ctx)
+	}
 }
 
 func (s *PropertyExpressionVisitor) EnterOC_Atom(ctx *parser.OC_AtomContext) {
